@@ -1,16 +1,18 @@
 import CM.Proofs.BlocksSpans
 import CM.Proofs.BlocksSpansStream
+import CM.Proofs.RefDefSpansMain
 /-
 C02 — every span is valid, nested in its parent, and ordered: the BLOCK phase, as theorems about the model of the real
 block parser (tied to the code by the `blocks` correspondence op). `PBSpans QT lo hi b`: the block's span lies in
 `[lo, hi]`; its block children are in order, pairwise non-overlapping and inside it; its inline children likewise; only a
 last child may be open. `processLine_spans`: one line keeps the document root's `PBSpans` (for the source grown by that
 line). `drain_spans`: every root `Parse` delivers (block phase) has `PBSpans 0 |Source|` and its span ends at `|Source|`.
-One decidable hypothesis remains: `RefDefSpansOK` — that the blocks `onCloseParagraph` splits a paragraph into (link
-reference definitions + remainder) tile a sub-range of the paragraph in order; it holds outright for paragraphs not
-starting with `[` (`refDefSpansOK_of_no_bracket`), is evaluated by the Lean driver on every generated input (`spanshyp`
-op), and its reader-level proof is the open target. The inline half and the character-boundary clause need the
-inline-phase model; they are monitored on the implementation by `Spec.spansOK`.
+The hypothesis `RefDefSpansOK` that `drain_spans` used to carry — that the blocks `onCloseParagraph` splits a paragraph into
+(link reference definitions + remainder) tile a sub-range of the paragraph in order — is now a theorem
+(`refDefSpansOK`, 19 proof files `RefDefSpans*`: the reader of the definition parser only moves forward through the
+paragraph's inline nodes, whose line endings sit at node ends), so `drain_spans_uncond` and `drain_spans_stream` hold for
+every input with no hypothesis (the streaming form within the block-size limit, as C08). The inline half and the
+character-boundary clause need the inline-phase model; they are monitored on the implementation by `Spec.spansOK`.
 -/
 namespace CM.Props.C02
 open CM CM.Model CM.Proofs CM.Proofs.BSp
@@ -38,5 +40,24 @@ theorem root_span (r : Root) (h : RootSpansOK r) :
 theorem offset_spans (n : Int) (b : PB) {lo hi : Int} (hlo : 0 ≤ lo) (hlon : 0 ≤ lo + n) (h : PBSpans QT lo hi b) :
     PBSpans QT (lo + n) (hi + n) (offsetPB n b) :=
   offsetPB_spans n b hlo hlon h
+
+/-- The link-reference-definition check never fails: `RefDefSpansOK` holds along every run. -/
+theorem refDefSpansOK (x : PExt) (inp : Bytes) (fuel : Nat) :
+    isRefDefFail (drain (blocksLPc x) fuel (memParser inp) []).2.1 = false :=
+  RDS.refDefSpansOK x inp fuel
+
+/-- **Block half of C02, unconditional.** Every root block `Parse` delivers (block phase), for every input: spans valid,
+    nested, ordered, only inside its own Source, the root's span ending at `len(Source)`. -/
+theorem drain_spans_uncond (x : PExt) (inp : Bytes) (fuel : Nat) :
+    ∀ r ∈ (drain (blocksLP x) fuel (memParser inp) []).1, RootSpansOK r :=
+  RDS.drain_spans_uncond x inp fuel
+
+/-- … and every root block the streaming parser delivers, for every reader schedule and final reader error, when no
+    root block reaches the block-size limit (`Small`, the side condition of C08). -/
+theorem drain_spans_stream (x : PExt) (inp : Bytes) (sched : List Nat) (eofWith : Bool) (fin : RErr)
+    (hsmall : Small inp) (fuel : Nat) :
+    ∀ r ∈ (drain (blocksLP x) fuel
+      (newBlockParser { data := inp, sched := sched, eofWith := eofWith, fin := fin }) []).1, RootSpansOK r :=
+  RDS.drain_spans_stream x inp sched eofWith fin hsmall fuel
 
 end CM.Props.C02
